@@ -208,6 +208,62 @@ def validAction (op : Bytes) (a : Bytes) : Bool :=
     | some r' => r' == lit "}}"
     | none => false
 
+/-! ### decoding a JSON string literal (to compare a routing value with what the receiver reads) -/
+
+def hexVal (b : UInt8) : Option Nat :=
+  if 48 ≤ b && b ≤ 57 then some (b.toNat - 48)
+  else if 97 ≤ b && b ≤ 102 then some (b.toNat - 87)
+  else if 65 ≤ b && b ≤ 70 then some (b.toNat - 55)
+  else none
+
+/-- UTF-8 of a code point of the basic plane (surrogates are refused by the caller) -/
+def utf8 (cp : Nat) : Bytes :=
+  if cp < 0x80 then [UInt8.ofNat cp]
+  else if cp < 0x800 then [UInt8.ofNat (0xC0 + cp / 64), UInt8.ofNat (0x80 + cp % 64)]
+  else [UInt8.ofNat (0xE0 + cp / 4096), UInt8.ofNat (0x80 + cp / 64 % 64), UInt8.ofNat (0x80 + cp % 64)]
+
+def unescapeChar (e : UInt8) : Option UInt8 :=
+  if e = 34 then some 34 else if e = 92 then some 92 else if e = 47 then some 47
+  else if e = 98 then some 8 else if e = 102 then some 12 else if e = 110 then some 10
+  else if e = 114 then some 13 else if e = 116 then some 9 else none
+
+/-- after the opening quote: (decoded content, rest after the closing quote) -/
+def strDecode : Bytes → Option (Bytes × Bytes)
+  | [] => none
+  | 34 :: rest => some ([], rest)
+  | 92 :: 117 :: a :: b :: c :: d :: rest =>
+    match hexVal a, hexVal b, hexVal c, hexVal d with
+    | some x, some y, some z, some w =>
+      let cp := ((x * 16 + y) * 16 + z) * 16 + w
+      if 0xD800 ≤ cp ∧ cp < 0xE000 then none
+      else (strDecode rest).map (fun r => (utf8 cp ++ r.1, r.2))
+    | _, _, _, _ => none
+  | 92 :: e :: rest =>
+    match unescapeChar e with
+    | some ch => (strDecode rest).map (fun r => (ch :: r.1, r.2))
+    | none => none
+  | [92] => none
+  | b :: rest => if b < 32 then none else (strDecode rest).map (fun r => (b :: r.1, r.2))
+
+/-- the index name a receiver reads out of `{"<op>":{"_index":"…"}}` -/
+def actionIndex (op : Bytes) (a : Bytes) : Option Bytes :=
+  match stripPrefix (lit "{\"" ++ op ++ lit "\":{\"_index\":\"") a with
+  | none => none
+  | some r => match strDecode r with
+    | some (v, r') => if r' == lit "}}" then some v else none
+    | none => none
+
+/-- spec of the index name: `index_format` with every `%` replaced by the value of its field
+    (`not_set` when empty) or the time text -/
+def specIndex (c : EsCfg) (e : Ev) : Option Bytes := expandFormat false c e c.format 0 []
+
+/-- spec of the kafka topic: the event's own topic field when `use_topic_field` is on and the
+    value is not empty, the default topic otherwise -/
+def specTopic (c : KCfg) (e : Ev) : Bytes :=
+  match c.useTopicField, e.route with
+  | true, v :: _ => if v = [] then c.defaultTopic else v
+  | _, _ => c.defaultTopic
+
 /-! ### the property oracle, applied to what the implementation produced -/
 
 /-- file / gelf: what one `out` call wrote is the deliverable events, each terminated -/
@@ -215,9 +271,10 @@ def holdsSep (sep : UInt8) (doc : Ev → Bytes) (batch : List Ev) (obs : Bytes) 
   unframeSep sep obs == some ((deliverable batch).map doc)
   && (deliverable batch).all (fun e => validJSON (doc e))
 
-/-- kafka: one record per deliverable event, value = the event -/
-def holdsKafka (batch : List Ev) (recs : List (Bytes × Bytes)) : Bool :=
+/-- kafka: one record per deliverable event, value = the event, topic = the event's own topic -/
+def holdsKafka (c : KCfg) (batch : List Ev) (recs : List (Bytes × Bytes)) : Bool :=
   recs.map (·.2) == (deliverable batch).map (·.enc) && recs.all (fun r => validJSON r.2)
+  && recs.map (·.1) == (deliverable batch).map (specTopic c)
 
 /-- an observed request with its body unframed into per-event frames of type `F` -/
 structure ObsReq (F : Type) where
@@ -244,8 +301,12 @@ def holdsAttempt {F : Type} (split : Bool) (okStatus : Nat → Bool) (matchEv : 
        ((reqs.filter (fun q => okStatus q.status || (q.status = 413 && (q.events.map List.length) == some 1))).flatMap
           (fun q => match q.events with | some l => l | none => [])))
 
-def esEventOk (op : Bytes) (e : Ev) (f : Bytes × Bytes) : Bool :=
-  validAction op f.1 && f.2 == e.enc && validJSON f.2
+/-- the action line is well-formed and names the event's OWN index; the document is the event -/
+def esEventOk (c : EsCfg) (e : Ev) (f : Bytes × Bytes) : Bool :=
+  validAction c.op f.1 && f.2 == e.enc && validJSON f.2
+  && (match specIndex c e with
+      | some idx => actionIndex c.op f.1 == some idx
+      | none => false)
 
 def frameOk (frame : Ev → Bytes) (e : Ev) (f : Bytes) : Bool := f == frame e && validJSON f
 
